@@ -16,6 +16,12 @@ import (
 var (
 	// MaxVariantArrayLength sets a limit on the number of elements in array
 	MaxVariantArrayLength = 0xffff
+
+	// MaxVariantArrayDimensions sets a limit on the number of dimensions of
+	// a multi-dimensional array. Decoding creates one nested slice type per
+	// dimension, which costs time and memory that grow with the square of
+	// the number of dimensions.
+	MaxVariantArrayDimensions = 64
 )
 
 const (
@@ -178,7 +184,7 @@ func (m *Variant) Decode(b []byte) (int, error) {
 	// check for dimensions of multi-dimensional array
 	if m.Has(VariantArrayDimensions) {
 		m.arrayDimensionsLength = buf.ReadInt32()
-		if m.arrayDimensionsLength < 0 {
+		if m.arrayDimensionsLength < 0 || int(m.arrayDimensionsLength) > MaxVariantArrayDimensions {
 			return buf.Pos(), StatusBadEncodingLimitsExceeded
 		}
 		// each dimension takes four bytes: do not allocate for more
